@@ -154,6 +154,10 @@ Fixpoint touch_ok_b (prev : Q) (h : list seg) : bool :=
   | s :: h' => (stouched s || Qeq_bool (sr s) prev) && touch_ok_b (sr s) h'
   end.
 
+(** a list of remaining-work values never increases and never goes below zero *)
+Fixpoint nonincr (prev : Q) (l : list Q) : Prop :=
+  match l with [] => True | x :: l' => x <= prev /\ 0 <= x /\ nonincr x l' end.
+
 Definition oQeq (a b : option Q) : Prop :=
   match a, b with Some x, Some y => x == y | None, None => True | _, _ => False end.
 
@@ -183,6 +187,7 @@ Fixpoint work_sum (l : list sample) : Q :=
   match l with [] => 0 | s :: l' => s_rate s * s_dt s + work_sum l' end.
 Fixpoint last_rem (prev : Q) (l : list sample) : Q :=
   match l with [] => prev | s :: l' => last_rem (s_rem s) l' end.
+Fixpoint tol_sum (tol : Q) (l : list sample) : Q := match l with [] => 0 | _ :: l' => tol + tol_sum tol l' end.
 Fixpoint rems_of (l : list sample) : list Q := match l with [] => [] | s :: l' => s_rem s :: rems_of l' end.
 
 (** ------------------------------------------------------------------------------------------------ I/O for the drivers *)
